@@ -249,3 +249,38 @@ package ecs
 //@   requires m.world != nil && m.storage != nil && poolInv(&m.world.storage.entityPool) && uint64(entity.id) < uint64(len(m.world.storage.entityPool.entities))
 //@   requires m.world.storage.observers != nil && obsShape(m.world.storage.observers)
 //@   ensures  present: alive(&m.world.storage.entityPool, entity) && m.storage.columns[m.world.storage.entities[entity.id].table] != nil
+
+// ---- "the world is locked during batch callbacks" (C09, C07) --------------------------------------
+// Every callback and observer dispatch of a batch creation runs while a lock bit is outstanding.
+
+//@ func (*World).newEntities
+//@   serves C09 C02
+//@   trusted
+//@   ensures  locks: w.storage.locks.locks.bits == old(w.storage.locks.locks.bits)
+//@   ensures  table: uint64(result0) < uint64(len(w.storage.tables))
+//@   modifies w.storage.tables, w.storage.tables[*], w.storage.entities, w.storage.entities[*], w.storage.isTarget, w.storage.isTarget[*], w.storage.entityPool, w.storage.archetypes, w.storage.archetypes[*], w.storage.graph, w.storage.slices, w.storage.cache, w.storage.components, w.storage.componentIndex
+
+// relation-argument conversion: trusted to write only into the scratch list it is given (it
+// validates and appends; verified separately as toRelationsSlowPath for the filter path)
+//@ func (relationEntities).ToRelation
+//@   serves C04
+//@   trusted
+//@   modifies out[*]
+
+//@ func (relationSlice).ToRelations
+//@   serves C04
+//@   trusted
+//@   modifies out[*]
+
+//@ spec func worldLocked(w *World) bool := w.storage.locks.locks.bits != 0
+
+//@ func (*Map[T]).NewBatchFn
+//@   serves C09 C07
+//@   typeparams T=uintptr
+//@   maypanic
+//@   mayfault
+//@   lockedcallbacks
+//@   requires m.world != nil && m.storage != nil && lockInv(&m.world.storage.locks) && m.world.storage.observers != nil && obsShape(m.world.storage.observers)
+//@   assert   fn locked-fn: worldLocked(m.world)
+//@   assert   FireCreateEntity locked-create: worldLocked(m.world)
+//@   assert   FireCreateEntityRel locked-rel: worldLocked(m.world)
